@@ -32,3 +32,391 @@ Proof.
   - apply PeanoNat.Nat.leb_gt in E. split; [discriminate|].
     intros [pre H]. rewrite H, app_length in E. lia.
 Qed.
+
+(* ================= arithmetic and list helpers ================= *)
+
+Lemma llen_nil {A} : llen (@nil A) = 0.
+Proof. reflexivity. Qed.
+
+Lemma llen_cons {A} (x : A) l : llen (x :: l) = 1 + llen l.
+Proof. unfold llen. cbn [length]. lia. Qed.
+
+Lemma llen_app {A} (a b : list A) : llen (a ++ b) = llen a + llen b.
+Proof. unfold llen. rewrite app_length. lia. Qed.
+
+Lemma llen_map {A B} (f : A -> B) l : llen (map f l) = llen l.
+Proof. unfold llen. rewrite map_length. reflexivity. Qed.
+
+Ltac ll :=
+  repeat first [rewrite llen_cons in * | rewrite llen_app in * | rewrite llen_map in *];
+  repeat match goal with
+         | |- context [@llen ?A (@nil ?B)] => change (@llen A (@nil B)) with 0
+         | H : context [@llen ?A (@nil ?B)] |- _ => change (@llen A (@nil B)) with 0 in H
+         end.
+
+Lemma llen_zero {A} (l : list A) : llen l = 0 -> l = [].
+Proof. destruct l as [|x l]; [reflexivity|]. rewrite llen_cons. lia. Qed.
+
+Lemma sum_lens_app a b : sum_lens (a ++ b) = sum_lens a + sum_lens b.
+Proof.
+  induction a as [|l a IH]; cbn [app sum_lens]; [lia|]. rewrite IH. lia.
+Qed.
+
+Lemma sum_lens_root : sum_lens [[]] = 1.
+Proof. reflexivity. Qed.
+
+Lemma sum_lens_ge ls : llen ls <= sum_lens ls.
+Proof.
+  induction ls as [|l ls IH]; cbn [sum_lens]; [ll; lia|].
+  rewrite llen_cons. lia.
+Qed.
+
+(* ---- ASCII case ---- *)
+
+Lemma is_upper_true b : is_upper b = true <-> 65 <= b <= 90.
+Proof.
+  unfold is_upper. rewrite andb_true_iff, !N.leb_le. reflexivity.
+Qed.
+
+Lemma is_upper_false b : is_upper b = false <-> (b < 65 \/ 90 < b).
+Proof.
+  unfold is_upper. rewrite andb_false_iff, !N.leb_gt. reflexivity.
+Qed.
+
+Lemma lower_upper b : 65 <= b <= 90 -> lower b = b + 32.
+Proof. intro H. unfold lower. apply is_upper_true in H. rewrite H. reflexivity. Qed.
+
+Lemma lower_id b : is_upper b = false -> lower b = b.
+Proof. intro H. unfold lower. rewrite H. reflexivity. Qed.
+
+Lemma lower_cases b : (65 <= b <= 90 /\ lower b = b + 32) \/ ((b < 65 \/ 90 < b) /\ lower b = b).
+Proof.
+  destruct (is_upper b) eqn:E.
+  - left. apply is_upper_true in E. split; [assumption|]. apply lower_upper; assumption.
+  - right. split; [apply is_upper_false; assumption | apply lower_id; assumption].
+Qed.
+
+Lemma lower_small b : b < 256 -> lower b < 256.
+Proof. destruct (lower_cases b) as [[H ->]|[H ->]]; lia. Qed.
+
+Lemma lower_not_upper b : is_upper (lower b) = false.
+Proof. apply is_upper_false. destruct (lower_cases b) as [[H ->]|[H ->]]; lia. Qed.
+
+Lemma lower_idem b : lower (lower b) = lower b.
+Proof. apply lower_id, lower_not_upper. Qed.
+
+Lemma lower_eq_46 b : lower b = 46 <-> b = 46.
+Proof. destruct (lower_cases b) as [[H ->]|[H ->]]; lia. Qed.
+
+Lemma lower_eqb_46 b : N.eqb (lower b) 46 = N.eqb b 46.
+Proof.
+  destruct (N.eqb_spec (lower b) 46) as [H|H]; destruct (N.eqb_spec b 46) as [H'|H'];
+    try reflexivity; rewrite lower_eq_46 in H; contradiction.
+Qed.
+
+Lemma map_lower_idem l : map lower (map lower l) = map lower l.
+Proof. rewrite map_map. apply map_ext. intro; apply lower_idem. Qed.
+
+Lemma map_lower_id l : Forall (fun b => is_upper b = false) l -> map lower l = l.
+Proof.
+  induction 1 as [|b l Hb _ IH]; [reflexivity|]. cbn [map]. rewrite IH, lower_id by assumption. reflexivity.
+Qed.
+
+(* ================= from_labels ================= *)
+
+Definition nonempty (l : label) : Prop := l <> [].
+
+Lemma label_is_empty_true l : label_is_empty l = true <-> l = [].
+Proof. destruct l; cbn; split; congruence. Qed.
+
+Lemma loop_true ls len r : from_labels_loop ls true len = Some r -> ls = [] /\ r = (true, len).
+Proof. destruct ls; cbn [from_labels_loop]; intro H; [inversion H; auto | discriminate]. Qed.
+
+Lemma loop_false ls : forall len b len',
+  from_labels_loop ls false len = Some (b, len') ->
+  len' + llen ls = len + sum_lens ls /\
+  ((b = true /\ exists front, ls = front ++ [[]] /\ Forall nonempty front)
+   \/ (b = false /\ Forall nonempty ls)).
+Proof.
+  induction ls as [|l t IH]; intros len b len' H; cbn [from_labels_loop] in H.
+  - inversion H; subst. split; [cbn [sum_lens]; ll; lia|]. right. split; [reflexivity|constructor].
+  - cbn [orb] in H. destruct l as [|x l]; cbn [label_is_empty] in H.
+    + apply loop_true in H as [-> H]. inversion H; subst.
+      split; [cbn [sum_lens]; ll; lia|].
+      left. split; [reflexivity|]. exists []. split; [reflexivity|constructor].
+    + apply IH in H as [Hlen Hb]. split.
+      * cbn [sum_lens]. ll. lia.
+      * destruct Hb as [[-> (front & -> & Hf)]|[-> Hf]].
+        -- left. split; [reflexivity|]. exists ((x :: l) :: front). split; [reflexivity|].
+           constructor; [discriminate|assumption].
+        -- right. split; [reflexivity|]. constructor; [discriminate|assumption].
+Qed.
+
+Lemma loop_complete front : forall len, Forall nonempty front ->
+  exists len', from_labels_loop (front ++ [[]]) false len = Some (true, len')
+               /\ len' + llen (front ++ [[]]) = len + sum_lens (front ++ [[]]).
+Proof.
+  induction front as [|l t IH]; intros len Hf.
+  - exists (len + llen (@nil byte)). split; [reflexivity|]. cbn [app sum_lens]. ll. lia.
+  - apply Forall_cons_iff in Hf as [Hl Ht]. destruct l as [|x l]; [exfalso; apply Hl; reflexivity|].
+    cbn [app from_labels_loop orb label_is_empty].
+    destruct (IH (len + llen (x :: l)) Ht) as (len' & E & Hlen).
+    exists len'. split; [exact E|]. cbn [sum_lens]. ll. lia.
+Qed.
+
+Lemma from_labels_ne ls : ls <> [] ->
+  from_labels ls = match from_labels_loop ls false (llen ls) with
+                   | Some (true, len) =>
+                     if len <=? 255 then Some {| labels := ls; nlen := len |} else None
+                   | _ => None
+                   end.
+Proof. destruct ls; [contradiction|reflexivity]. Qed.
+
+Lemma from_labels_inv ls n : from_labels ls = Some n ->
+  labels n = ls /\ nlen n = sum_lens ls /\ sum_lens ls <= 255 /\
+  exists front, ls = front ++ [[]] /\ Forall nonempty front.
+Proof.
+  destruct ls as [|l0 t] eqn:Els; [discriminate|]. rewrite <- Els.
+  rewrite from_labels_ne by (rewrite Els; discriminate). clear Els l0 t.
+  destruct (from_labels_loop ls false (llen ls)) as [[b len]|] eqn:E; [|discriminate].
+  destruct b; [|discriminate].
+  destruct (N.leb_spec len 255) as [Hle|Hgt]; [|discriminate].
+  intro H; inversion H; subst; clear H. cbn [labels nlen].
+  apply loop_false in E as [Hlen [[_ Hf]|[Hb _]]]; [|discriminate].
+  assert (len = sum_lens ls) by lia. subst len. auto.
+Qed.
+
+Lemma from_labels_intro front : Forall nonempty front -> sum_lens (front ++ [[]]) <= 255 ->
+  from_labels (front ++ [[]]) = Some {| labels := front ++ [[]]; nlen := sum_lens (front ++ [[]]) |}.
+Proof.
+  intros Hf Hs. rewrite from_labels_ne by (destruct front; discriminate).
+  destruct (loop_complete front (llen (front ++ [[]])) Hf) as (len' & E & Hlen). rewrite E.
+  assert (len' = sum_lens (front ++ [[]])) by lia. subst len'.
+  destruct (N.leb_spec (sum_lens (front ++ [[]])) 255); [reflexivity|lia].
+Qed.
+
+Lemma from_labels_wf ls n :
+  Forall wf_label ls -> from_labels ls = Some n -> wf_name n /\ labels n = ls.
+Proof.
+  intros Hwf H. apply from_labels_inv in H as (Hl & Hn & Hs & front & Hls & Hf).
+  split; [|assumption]. unfold wf_name. rewrite Hl. split; [|assumption].
+  exists front. split; [assumption|]. split; [|assumption].
+  rewrite Hls in Hwf. apply Forall_app in Hwf as [Hwf _].
+  rewrite Forall_forall in *. intros l Hin. split; [apply Hf | apply Hwf]; assumption.
+Qed.
+
+Lemma wf_labels_from_labels ls : wf_labels ls -> exists n, from_labels ls = Some n.
+Proof.
+  intros (front & -> & Hf & Hs). eexists. apply from_labels_intro; [|assumption].
+  rewrite Forall_forall in *. intros l Hin. apply Hf; assumption.
+Qed.
+
+Lemma from_labels_complete ls :
+  Forall wf_label ls -> (from_labels ls = None <-> ~ wf_labels ls).
+Proof.
+  intro Hwf. split.
+  - intros H Hw. apply wf_labels_from_labels in Hw as [n Hn]. congruence.
+  - intro Hnw. destruct (from_labels ls) as [n|] eqn:E; [|reflexivity].
+    exfalso. apply Hnw. apply from_labels_wf in E as [[Hw _] Hl]; [|assumption]. rewrite <- Hl. assumption.
+Qed.
+
+Lemma from_labels_of_wf n : wf_name n -> from_labels (labels n) = Some n.
+Proof.
+  destruct n as [ls len]. intros [(front & Hls & Hf & Hs) Hn]. cbn [labels nlen] in *. subst ls len.
+  apply from_labels_intro; [|assumption].
+  rewrite Forall_forall in *. intros l Hin. apply Hf; assumption.
+Qed.
+
+Lemma wf_labels_all ls : wf_labels ls -> Forall wf_label ls.
+Proof.
+  intros (front & -> & Hf & _). apply Forall_app. split.
+  - rewrite Forall_forall in *. intros l Hin. apply Hf; assumption.
+  - constructor; [|constructor]. split; [ll; lia|constructor].
+Qed.
+
+(* ================= UTF-8 ================= *)
+
+Definition small (b : N) : Prop := b < 256.
+
+Lemma cont_byte x : 128 <= 128 + x mod 64 < 192.
+Proof.
+  assert (H : x mod 64 < 64) by (apply N.mod_lt; lia).
+  set (m := x mod 64) in *. clearbody m. lia.
+Qed.
+
+Lemma lower_ge b : 91 <= b -> lower b = b.
+Proof. intro H. apply lower_id, is_upper_false. lia. Qed.
+
+Lemma lower_lead a x : 91 <= a -> lower (a + x) = a + x.
+Proof. intro H. apply lower_ge. lia. Qed.
+
+Lemma lower_cont x : lower (128 + x mod 64) = 128 + x mod 64.
+Proof. apply lower_ge. pose proof (cont_byte x). lia. Qed.
+
+Lemma utf8_char_ne c : utf8_char c <> [].
+Proof.
+  unfold utf8_char. destruct (c <? 128); [discriminate|].
+  destruct (c <? 2048); [discriminate|]. destruct (c <? 65536); discriminate.
+Qed.
+
+Lemma utf8_char_small c : scalar c -> Forall small (utf8_char c).
+Proof.
+  unfold scalar, small, utf8_char. intro Hc.
+  destruct (N.ltb_spec c 128) as [H1|H1]; [repeat constructor; lia|].
+  destruct (N.ltb_spec c 2048) as [H2|H2].
+  { assert (c / 64 < 32) by (apply N.div_lt_upper_bound; lia).
+    pose proof (cont_byte c). set (d := c / 64) in *. clearbody d.
+    repeat constructor; lia. }
+  destruct (N.ltb_spec c 65536) as [H3|H3].
+  { assert (c / 4096 < 16) by (apply N.div_lt_upper_bound; lia).
+    pose proof (cont_byte c). pose proof (cont_byte (c / 64)).
+    set (d := c / 4096) in *. clearbody d.
+    repeat constructor; lia. }
+  assert (c / 262144 < 16) by (apply N.div_lt_upper_bound; lia).
+  pose proof (cont_byte c). pose proof (cont_byte (c / 64)). pose proof (cont_byte (c / 4096)).
+  set (d := c / 262144) in *. clearbody d.
+  repeat constructor; lia.
+Qed.
+
+Lemma utf8_char_lower c : map lower (utf8_char c) = utf8_char (lower c).
+Proof.
+  unfold utf8_char.
+  destruct (N.ltb_spec c 128) as [H1|H1].
+  - assert (H : lower c < 128) by (destruct (lower_cases c) as [[H ->]|[H ->]]; lia).
+    apply N.ltb_lt in H. rewrite H. reflexivity.
+  - rewrite (lower_ge c) by lia.
+    destruct (N.ltb_spec c 128) as [H1'|_]; [lia|].
+    destruct (c <? 2048); [|destruct (c <? 65536)]; cbn [map];
+      rewrite !lower_lead by lia; reflexivity.
+Qed.
+
+Lemma utf8_cons c s : utf8 (c :: s) = utf8_char c ++ utf8 s.
+Proof. reflexivity. Qed.
+
+Lemma utf8_lower s : map lower (utf8 s) = utf8 (map lower s).
+Proof.
+  induction s as [|c s IH]; [reflexivity|].
+  cbn [map]. rewrite !utf8_cons, map_app, IH, utf8_char_lower. reflexivity.
+Qed.
+
+Lemma utf8_nil_inv s : utf8 s = [] -> s = [].
+Proof.
+  destruct s as [|c s]; [reflexivity|]. rewrite utf8_cons. intro H.
+  apply app_eq_nil in H as [H _]. exfalso. exact (utf8_char_ne c H).
+Qed.
+
+Lemma utf8_small s : Forall scalar s -> Forall small (utf8 s).
+Proof.
+  intro H. unfold utf8. apply Forall_flat_map.
+  rewrite Forall_forall in *. intros c Hc. apply utf8_char_small, H, Hc.
+Qed.
+
+Lemma utf8_ascii l : Forall (fun b => b < 128) l -> utf8 l = l.
+Proof.
+  induction 1 as [|b l Hb _ IH]; [reflexivity|].
+  rewrite utf8_cons, IH. unfold utf8_char. apply N.ltb_lt in Hb. rewrite Hb. reflexivity.
+Qed.
+
+(* the label a text chunk becomes *)
+Definition lab (c : list N) : label := map lower (utf8 c).
+
+Lemma lab_nil_inv c : lab c = [] -> c = [].
+Proof. unfold lab. intro H. apply map_eq_nil in H. apply utf8_nil_inv; assumption. Qed.
+
+Lemma lab_ne c : c <> [] -> nonempty (lab c).
+Proof. intros H H'. apply H, lab_nil_inv, H'. Qed.
+
+Lemma llen_lab c : llen (lab c) = llen (utf8 c).
+Proof. apply llen_map. Qed.
+
+Lemma map_lower_wf l : Forall small l ->
+  Forall (fun b => b < 256 /\ is_upper b = false) (map lower l).
+Proof.
+  intro H. apply Forall_map. rewrite Forall_forall in *. intros b Hb.
+  split; [apply lower_small, H, Hb | apply lower_not_upper].
+Qed.
+
+Lemma lab_wf c : Forall scalar c -> llen (utf8 c) <= 63 -> wf_label (lab c).
+Proof.
+  intros Hs Hl. split; [rewrite llen_lab; assumption|].
+  apply map_lower_wf, utf8_small, Hs.
+Qed.
+
+(* a well-formed ASCII label is the label of itself read as text *)
+Lemma lab_ascii l : wf_label l -> Forall (fun b => b < 128 /\ b <> 46) l -> lab l = l.
+Proof.
+  intros [_ Hw] Ha. unfold lab. rewrite utf8_ascii.
+  - apply map_lower_id. rewrite Forall_forall in *. intros b Hb. apply Hw, Hb.
+  - rewrite Forall_forall in *. intros b Hb. apply Ha, Hb.
+Qed.
+
+(* ================= split_on ================= *)
+
+Definition nodot (c : list N) : Prop := ~ In 46 c.
+Definition dotjoin (cs : list (list N)) : list N := concat (map (fun c => c ++ [46]) cs).
+
+Lemma split_on_ne d s : split_on d s <> [].
+Proof.
+  destruct s as [|x t]; cbn [split_on]; [discriminate|].
+  destruct (N.eqb x d); [discriminate|]. destruct (split_on d t); discriminate.
+Qed.
+
+Lemma split_on_app_sep d a b : split_on d (a ++ d :: b) = split_on d a ++ split_on d b.
+Proof.
+  induction a as [|x a IH]; cbn [app split_on].
+  - rewrite N.eqb_refl. reflexivity.
+  - destruct (N.eqb x d); [rewrite IH; reflexivity|].
+    rewrite IH. destruct (split_on d a) as [|h r] eqn:E; [exfalso; exact (split_on_ne d a E)|].
+    reflexivity.
+Qed.
+
+Lemma split_on_nodot c : nodot c -> split_on 46 c = [c].
+Proof.
+  unfold nodot. induction c as [|x c IH]; intro H; cbn [split_on]; [reflexivity|].
+  destruct (N.eqb_spec x 46) as [->|Hx]; [exfalso; apply H; left; reflexivity|].
+  rewrite IH; [reflexivity|]. intro Hin. apply H. right. assumption.
+Qed.
+
+Lemma split_on_dotjoin cs last : Forall nodot cs -> nodot last ->
+  split_on 46 (dotjoin cs ++ last) = cs ++ [last].
+Proof.
+  intros Hcs Hlast. induction Hcs as [|c cs Hc _ IH]; unfold dotjoin in *; cbn [map concat app].
+  - apply split_on_nodot; assumption.
+  - rewrite <- !app_assoc. cbn [app]. rewrite split_on_app_sep, IH, split_on_nodot by assumption. reflexivity.
+Qed.
+
+Lemma split_on_all_nodot s : Forall nodot (split_on 46 s).
+Proof.
+  induction s as [|x t IH]; cbn [split_on].
+  - constructor; [intros []|constructor].
+  - destruct (N.eqb_spec x 46) as [->|Hx].
+    + constructor; [intros []|assumption].
+    + destruct (split_on 46 t) as [|h r]; [constructor; [|constructor]|].
+      * intros [H|[]]. congruence.
+      * apply Forall_cons_iff in IH as [Hh Hr]. constructor; [|assumption].
+        intros [H|H]; [congruence|exact (Hh H)].
+Qed.
+
+Lemma join_dots_snoc_nil cs : join_dots (cs ++ [[]]) = dotjoin cs.
+Proof.
+  unfold dotjoin. induction cs as [|c cs IH]; [reflexivity|].
+  cbn [app map concat]. rewrite <- IH, <- app_assoc. cbn [app join_dots].
+  destruct (cs ++ [[]]) eqn:E; [destruct cs; discriminate|reflexivity].
+Qed.
+
+Lemma join_dots_split s : join_dots (split_on 46 s) = s.
+Proof.
+  induction s as [|x t IH]; cbn [split_on]; [reflexivity|].
+  destruct (N.eqb_spec x 46) as [->|Hx].
+  - destruct (split_on 46 t) as [|h r] eqn:E; [exfalso; exact (split_on_ne 46 t E)|].
+    cbn [join_dots app] in *. rewrite IH. reflexivity.
+  - destruct (split_on 46 t) as [|h r] eqn:E; [exfalso; exact (split_on_ne 46 t E)|].
+    destruct r as [|h' r]; cbn [join_dots app] in *; rewrite <- IH; reflexivity.
+Qed.
+
+Lemma split_on_lower s : split_on 46 (map lower s) = map (map lower) (split_on 46 s).
+Proof.
+  induction s as [|x t IH]; cbn [map split_on]; [reflexivity|].
+  rewrite lower_eqb_46, IH. destruct (N.eqb x 46); [reflexivity|].
+  destruct (split_on 46 t); reflexivity.
+Qed.
